@@ -223,6 +223,18 @@ def gen_spec(rng, clean=False, max_nodes=5):
         k = [i for i, t in enumerate(top) if t['kind'] == 'nodes'][0]
         top[k]['items'] = first
         top.insert(rng.randint(k + 1, len(top)), {'kind': 'nodes', 'items': second})
+    if clean and rng.random() < 0.6:
+        # a library kind that occurs SEVERAL times in the document (two or three <library_lights>, ... - schema-valid,
+        # merging tools produce it): objects of the later elements are instantiated like any other
+        cand = [t for t in top if t['kind'] != 'nodes' and len(t['items']) >= 2]
+        rng.shuffle(cand)
+        for t in cand[:rng.randint(1, 2)]:
+            parts = 3 if len(t['items']) >= 3 and rng.random() < 0.4 else 2
+            cuts = sorted(rng.sample(range(1, len(t['items'])), parts - 1))
+            chunks = [t['items'][a:b] for a, b in zip([0] + cuts, cuts + [len(t['items'])])]
+            t['items'] = chunks[0]
+            for ch in chunks[1:]:
+                top.insert(rng.randint(0, len(top)), {'kind': t['kind'], 'items': ch})
     if default is not None:
         top.insert(rng.randint(0, len(top)), {'kind': 'default', 'url': default})
     return {'top': top}
